@@ -551,11 +551,12 @@ Section StrategyProofs.
     zslice (y ++ P) (zlen y - wl + j) (zlen y + j).
   Proof.
     intros Hw Hj. rewrite zslice_full by lia.
-    rewrite <- (firstn_skipn (Z.to_nat (zlen y - wl)) y) at 3.
-    rewrite <- app_assoc.
+    assert (Ey : y ++ P = firstn (Z.to_nat (zlen y - wl)) y ++ (skipn (Z.to_nat (zlen y - wl)) y ++ P))
+      by (rewrite app_assoc, firstn_skipn; reflexivity).
     assert (HL : zlen (firstn (Z.to_nat (zlen y - wl)) y) = zlen y - wl).
     { unfold zlen. rewrite firstn_length. unfold zlen in Hw. lia. }
-    rewrite zslice_app_skip by lia. rewrite HL. f_equal; lia.
+    rewrite Ey. rewrite (zslice_app_skip (firstn (Z.to_nat (zlen y - wl)) y)) by lia.
+    rewrite HL. f_equal; lia.
   Qed.
 
   Lemma wf_fh_one : wf_fh [1].
@@ -589,6 +590,7 @@ Section StrategyProofs.
     replace (n_windows n wl [1]) with nw by (unfold n_windows, zlast, nw; cbn; lia).
     destruct (nw <=? 0) eqn:E; [reflexivity|].
     rewrite map_map. fold (train_X sc zs wl nw). fold X.
+    change (fun r => map (target_at y wl r) [1]) with (fun r => [target_at y wl r 1]).
     rewrite concat_map_singleton. fold (train_t y wl nw 1). fold t. fold m.
     pose proof (wf_fh_last fh Hfh) as Hfm.
     set (xb := map (fun p => last_window n wl (fst p) ++ snd p) (combine (tl zs) xfut)).
@@ -694,8 +696,9 @@ Section StrategyProofs.
       assert (Hl : zlen (zslice y r (r + wl)) = wl).
       { rewrite zlen_zslice; unfold nw, n_windows, n in *; lia. }
       rewrite zslice_app_mid by lia. rewrite Hl.
-      replace (zslice (zslice y r (r + wl)) 0 wl) with (zslice y r (r + wl))
-        by (rewrite <- Hl at 2; rewrite zslice_0_all; reflexivity).
+      assert (E0 : zslice (zslice y r (r + wl)) 0 wl = zslice y r (r + wl)).
+      { pose proof (zslice_0_all (zslice y r (r + wl))) as E0. rewrite Hl in E0. exact E0. }
+      rewrite E0.
       do 3 f_equal. unfold zslice. cbn [Z.to_nat skipn]. rewrite firstn_map. f_equal. f_equal. lia. }
     assert (ET : forall i, 0 <= i < zlen fh ->
       col i (map (fun x => map (target_at y wl x) fh) (zrange 0 nw 1)) = train_t y wl nw (znth fh i)).
@@ -723,3 +726,72 @@ Section StrategyProofs.
   Lemma dirrec_rejects_exog sc y x xs wl fh : dirrec_run M fit1 pred1 sc (y :: x :: xs) wl fh = Err.
   Proof. reflexivity. Qed.
 End StrategyProofs.
+
+(* ---------------------------------------------------------------------------------------------- *)
+(* Part 4: readable corollaries *)
+
+(* the row given to predict by direct/multioutput is laid out exactly like a training row: it is the
+   window starting at n - wl, encoded by the same `enc` (variable-major for the tabular scitype) *)
+Lemma last_obs_is_window zs wl : last_obs zs wl = window_at zs wl (zlen (hd [] zs) - wl).
+Proof.
+  unfold last_obs, window_at. apply map_ext. intro zv. f_equal. lia.
+Qed.
+
+(* shape of the window at the end of the series extended by predictions P, at step i (0-based):
+   while i <= wl it is the last wl - i observations followed by the first i predictions (newest
+   last); afterwards it consists of the wl most recent predictions only *)
+Lemma feedback_window_shape (y P : list Z) wl i : 0 <= wl <= zlen y -> 0 <= i ->
+  zslice (y ++ P) (zlen y - wl + i) (zlen y + i) =
+    if i <=? wl then zslice y (zlen y - wl + i) (zlen y) ++ zslice P 0 i
+    else zslice P (i - wl) i.
+Proof.
+  intros Hw Hi. destruct (i <=? wl) eqn:E.
+  - rewrite zslice_app_mid by lia. f_equal. f_equal. lia.
+  - rewrite zslice_app_skip by lia. f_equal; lia.
+Qed.
+
+Lemma sorted_firstn_lt : forall l (i : nat) h, sorted_lt l -> (i < length l)%nat ->
+  In h (firstn i l) -> h < nth i l 0.
+Proof.
+  induction l as [|a t IH]; intros i h Hs Hi Hin; [cbn in Hi; lia|].
+  destruct i as [|i]; [destruct Hin|]. cbn [firstn nth] in *. cbn [length] in Hi.
+  destruct Hin as [<-|Hin].
+  - apply (sorted_lt_head_lt t a); [exact Hs|]. apply nth_In. lia.
+  - apply IH; [eapply sorted_lt_tail; eauto|lia|exact Hin].
+Qed.
+
+(* dirrec: every value in a training row of the regressor for step index i lies strictly before
+   that regressor's target: the window positions r .. r+wl-1 and the earlier targets
+   r+wl-1+h (h an earlier requested step) are all < r+wl-1+fh_i *)
+Lemma dirrec_row_no_future fh wl r i h c : wf_fh fh -> 1 <= wl -> 0 <= i < zlen fh ->
+  0 <= c < wl -> In h (firstn (Z.to_nat i) fh) ->
+  r + c < (r + wl - 1) + znth fh i /\ (r + wl - 1) + h < (r + wl - 1) + znth fh i.
+Proof.
+  intros Hfh Hwl Hi Hc Hin.
+  assert (Hlt : h < znth fh i).
+  { unfold znth. apply sorted_firstn_lt; [apply Hfh|unfold zlen in Hi; lia|exact Hin]. }
+  assert (H1 : 1 <= h).
+  { apply (wf_fh_bounds fh h Hfh). rewrite <- (firstn_skipn (Z.to_nat i) fh).
+    apply in_or_app. left. exact Hin. }
+  lia.
+Qed.
+
+Lemma infer_scitype_spec b1 b2 :
+  infer_scitype b1 b2 = if b1 then Ok TimeSeries else if b2 then Ok Tabular else Err.
+Proof. reflexivity. Qed.
+
+(* non-vacuity: a gapped horizon on a 7-point series with one exogenous column *)
+Definition ex_zs : list (list Z) := [[11; 12; 13; 14; 15; 16; 17]; [21; 22; 23; 24; 25; 26; 27]].
+Lemma ex_nonvacuous :
+  wf_zs ex_zs /\ wf_fh [1; 3] /\
+  swt ex_zs 2 (fh_indexer [1; 3]) =
+    Ok ([[13; 15]; [14; 16]; [15; 17]],
+        [[[11; 12]; [21; 22]]; [[12; 13]; [22; 23]]; [[13; 14]; [23; 24]]]) /\
+  enc Tabular (last_obs ex_zs 2) = RTab [16; 17; 26; 27].
+Proof.
+  split; [|split; [|split]].
+  - split; [discriminate|]. intros zv [<-|[<-|[]]]; reflexivity.
+  - unfold wf_fh. cbn. split; [discriminate|]. split; [lia|lia].
+  - vm_compute. reflexivity.
+  - vm_compute. reflexivity.
+Qed.
